@@ -1010,6 +1010,9 @@ func runC19(run *Run, replay string) Spec {
 	}
 	curPath := filepath.Join(run.VerifDir, ".run", "current-C19-0.json")
 	exec := func(sc *c19Scenario) {
+		if sc.NilCtxInit && run.NViolations() > 0 {
+			return // a violation with its own replay is in hand: do not risk losing it to a process abort
+		}
 		if sc.NilCtxInit {
 			// only this shape can take the process down (a nil context handed to a goroutine): leave a note for the check
 			_ = os.WriteFile(curPath, []byte(jsonStr(map[string]any{"scenario": sc})), 0o644)
